@@ -141,34 +141,119 @@ fn words(alphabet: &[char], max_len: usize) -> Vec<String> {
 
 // ---------------------------------------------------------------- display subjects
 
-const DISP_TYPES: [&str; 7] = ["i32", "f64", "bool", "char", "String", "T2", "List"];
+const DISP_TYPES: [&str; 16] = ["i32", "f64", "bool", "char", "String", "T2", "List", "u8", "i8", "i64", "usize", "f32", "f64x", "T3s", "ListS", "u64"];
 
 fn fmt_prec<T: Display>(e: &T, p: Option<usize>) -> String { match p { Some(p) => format!("{:.p$}", e, p = p), None => format!("{}", e) } }
 
-fn disp_with<T: ArrayElement>(elems: Vec<T>, shape: &[usize], prec: Option<usize>, alt: bool) -> (Vec<String>, String) {
-    let texts: Vec<String> = elems.iter().map(|e| fmt_prec(e, prec)).collect();
-    let shown = guarded(|| {
-        let a = Array::new(elems, shape.to_vec()).expect("harness: display subject");
-        match (prec, alt) {
-            (None, false) => format!("{}", a), (None, true) => format!("{:#}", a),
-            (Some(p), false) => format!("{:.p$}", a, p = p), (Some(p), true) => format!("{:#.p$}", a, p = p),
-        }
-    });
-    (texts, shown)
+/// the four format combinations `{}`, `{:#}`, `{:.N}`, `{:#.N}` applied to any `Display` value
+fn fmt_spec<D: Display>(d: &D, prec: Option<usize>, alt: bool) -> String {
+    match (prec, alt) {
+        (None, false) => format!("{}", d), (None, true) => format!("{:#}", d),
+        (Some(p), false) => format!("{:.p$}", d, p = p), (Some(p), true) => format!("{:#.p$}", d, p = p),
+    }
 }
 
-fn disp_subject(ty: &str, shape: &[usize], prec: Option<usize>, alt: bool) -> Option<(Vec<String>, String)> {
+/// element texts (by the element type's own `Display`), the text form of the plain `Array<T>` receiver, and the text form of
+/// the `Result<Array<T>, ArrayError>` receiver (`PrintableResult { result: Ok(array) }`) under the same format specification
+/// `render`: 0 = element texts only (generator), 1 = plain receiver only, 2 = both receivers
+fn disp_with<T: ArrayElement>(elems: Vec<T>, shape: &[usize], prec: Option<usize>, alt: bool, render: u8) -> (Vec<String>, String, String) {
+    let texts: Vec<String> = elems.iter().map(|e| fmt_prec(e, prec)).collect();
+    if render == 0 { return (texts, String::new(), String::new()); }
+    let e2 = if render == 2 { elems.clone() } else { vec![] };
+    let shown = guarded(|| fmt_spec(&Array::new(elems, shape.to_vec()).expect("harness: display subject"), prec, alt));
+    let wrapped = if render == 2 { guarded(|| fmt_spec(&PrintableResult { result: Array::new(e2, shape.to_vec()) }, prec, alt)) } else { String::new() };
+    (texts, shown, wrapped)
+}
+
+const F64X: [f64; 12] = [-0.0, 5e-324, 1e300, 0.1, f64::MAX, f64::MIN_POSITIVE, 9007199254740993.0, f64::INFINITY, f64::NEG_INFINITY, f64::NAN, 0.30000000000000004, -1e-7];
+const F32X: [f32; 8] = [0.1, 16777216.0, -0.0, f32::MAX, 1e-45, 1.5, f32::NAN, -2.75];
+const BLANKY: [&str; 8] = ["new york", "", " ", "a b c", "x", " lead", "trail ", "mid  dle"];
+
+fn disp_subject(ty: &str, shape: &[usize], prec: Option<usize>, alt: bool, render: u8) -> Option<(Vec<String>, String, String)> {
     let n: usize = shape.iter().product();
     let sgn = |k: usize| if k % 3 == 1 { -1i32 } else { 1 };
     Some(match ty {
-        "i32" => disp_with((0..n).map(|k| (k as i32 + 1) * sgn(k)).collect(), shape, prec, alt),
-        "f64" => disp_with((0..n).map(|k| (k as f64 + 1.0) * 0.375 * sgn(k) as f64).collect(), shape, prec, alt),
-        "bool" => disp_with((0..n).map(|k| k % 3 != 1).collect::<Vec<bool>>(), shape, prec, alt),
-        "char" => disp_with((0..n).map(|k| (b'a' + (k * 5 % 26) as u8) as char).collect::<Vec<char>>(), shape, prec, alt),
-        "String" => disp_with((0..n).map(|k| if k % 4 == 2 { format!("w {k}") } else { format!("s{k}") }).collect::<Vec<String>>(), shape, prec, alt),
-        "T2" => disp_with((0..n).map(|k| Tuple2(k as i32 * sgn(k), k as f64 * 0.5)).collect::<Vec<_>>(), shape, prec, alt),
-        "List" => disp_with((0..n).map(|k| List((0..k % 3).map(|j| (k + j) as i32).collect())).collect::<Vec<_>>(), shape, prec, alt),
+        "i32" => disp_with((0..n).map(|k| (k as i32 + 1) * sgn(k)).collect(), shape, prec, alt, render),
+        "f64" => disp_with((0..n).map(|k| (k as f64 + 1.0) * 0.375 * sgn(k) as f64).collect(), shape, prec, alt, render),
+        "bool" => disp_with((0..n).map(|k| k % 3 != 1).collect::<Vec<bool>>(), shape, prec, alt, render),
+        "char" => disp_with((0..n).map(|k| (b'a' + (k * 5 % 26) as u8) as char).collect::<Vec<char>>(), shape, prec, alt, render),
+        "String" => disp_with((0..n).map(|k| if k % 4 == 2 { format!("w {k}") } else { format!("s{k}") }).collect::<Vec<String>>(), shape, prec, alt, render),
+        "T2" => disp_with((0..n).map(|k| Tuple2(k as i32 * sgn(k), k as f64 * 0.5)).collect::<Vec<_>>(), shape, prec, alt, render),
+        "List" => disp_with((0..n).map(|k| List((0..k % 3).map(|j| (k + j) as i32).collect())).collect::<Vec<_>>(), shape, prec, alt, render),
+        // value classes: the borders of the byte-sized types, integers beyond 2^53, -0.0 / subnormal / NaN / infinities
+        "u8" => disp_with((0..n).map(|k| [255u8, 0, 254, 128, 127, 1, 200][k % 7].wrapping_sub((k / 7) as u8)).collect::<Vec<u8>>(), shape, prec, alt, render),
+        "i8" => disp_with((0..n).map(|k| [-128i8, 127, 0, -1, 100][k % 5].wrapping_add((k / 5) as i8)).collect::<Vec<i8>>(), shape, prec, alt, render),
+        "i64" => disp_with((0..n).map(|k| [9007199254740993i64, -9007199254740993, i64::MAX, i64::MIN, 0, 4294967296][k % 6].wrapping_add((k / 6) as i64 * sgn(k) as i64)).collect::<Vec<i64>>(), shape, prec, alt, render),
+        "u64" => disp_with((0..n).map(|k| [u64::MAX, 9007199254740993, 0, 1 << 63][k % 4].wrapping_sub((k / 4) as u64)).collect::<Vec<u64>>(), shape, prec, alt, render),
+        "usize" => disp_with((0..n).map(|k| [usize::MAX, 0, 1001, 4096][k % 4].wrapping_sub(k / 4)).collect::<Vec<usize>>(), shape, prec, alt, render),
+        "f32" => disp_with((0..n).map(|k| F32X[k % 8] * (1 + k / 8) as f32).collect::<Vec<f32>>(), shape, prec, alt, render),
+        "f64x" => disp_with((0..n).map(|k| F64X[k % 12] * (1 + k / 12) as f64).collect::<Vec<f64>>(), shape, prec, alt, render),
+        "T3s" => disp_with((0..n).map(|k| Tuple3(BLANKY[k % 8].to_string(), k as i32 * sgn(k), F64X[(k / 8) % 12])).collect::<Vec<_>>(), shape, prec, alt, render),
+        "ListS" => disp_with((0..n).map(|k| List((0..k % 3).map(|j| BLANKY[(k + j) % 8].to_string()).collect())).collect::<Vec<_>>(), shape, prec, alt, render),
         _ => return None,
+    })
+}
+
+/// shapes beyond the small scope for the text form: `big_shapes()` plus rows longer than 1000 elements (1001, 1030, 2000),
+/// more than 1000 rows, and totals above 1000 built from short rows
+fn disp_big_shapes() -> Vec<Vec<usize>> {
+    let mut v = big_shapes();
+    v.extend(vec![vec![999], vec![1000], vec![1001], vec![2000], vec![2, 1001], vec![1001, 2], vec![1, 1001], vec![1001, 1], vec![3, 1001, 1], vec![2, 1, 1001], vec![2, 1000], vec![4, 1000],
+        vec![1200, 1], vec![11, 10, 10], vec![101, 10], vec![10, 101], vec![2, 3, 167], vec![1, 1, 1, 1001]]);
+    v
+}
+
+// ---------------------------------------------------------------- typed text round trips (value classes per element type)
+
+/// `Display` texts of the value classes of an element type (borders of the type, integers beyond 2^53, -0.0, subnormals, NaN, blanks)
+fn vals(ty: &str) -> Vec<String> {
+    fn sh<T: Display>(v: &[T]) -> Vec<String> { v.iter().map(|x| x.to_string()).collect() }
+    match ty {
+        "i64" => sh(&[0i64, -1, 9007199254740993, i64::MIN, i64::MAX]),
+        "f64" => sh(&[0.0f64, -0.0, 0.1, 1e300, 5e-324, f64::NAN, f64::INFINITY, -2.5, 0.30000000000000004]),
+        "u8" => sh(&[0u8, 255, 128]), "i8" => sh(&[-128i8, 127, 0]), "i16" => sh(&[-32768i16, 32767, 0]), "u16" => sh(&[65535u16, 0, 256]),
+        "i32" => sh(&[i32::MIN, i32::MAX, 0, -7]), "u32" => sh(&[u32::MAX, 0, 65536]),
+        "f32" => sh(&[0.1f32, -0.0, 16777216.0, f32::MAX, 1e-45, f32::NAN]),
+        "bool" => sh(&[true, false]), "u64" => sh(&[u64::MAX, 9007199254740993, 0]), "isize" => sh(&[isize::MIN, isize::MAX, 0]), "usize" => sh(&[usize::MAX, 0, 1001]),
+        "char" => sh(&['a', ' ', 'Z', '0', '-']),
+        "String" => sh(&BLANKY),
+        _ => vec![],
+    }
+}
+const T2_COMBOS: [(&str, &str); 9] = [("i64", "f64"), ("u8", "i8"), ("f32", "bool"), ("u64", "isize"), ("String", "i16"), ("char", "u16"), ("usize", "u32"), ("f64", "String"), ("String", "char")];
+const T3_COMBOS: [(&str, &str, &str); 7] = [("i64", "bool", "f64"), ("u8", "i8", "f32"), ("String", "i32", "f64"), ("u64", "usize", "isize"), ("char", "String", "u16"), ("f64", "f64", "String"), ("i16", "u32", "String")];
+const L_TYPES: [&str; 13] = ["i64", "u8", "i8", "f64", "f32", "bool", "String", "char", "usize", "u64", "i16", "u16", "isize"];
+
+/// the value -> text -> value round trip on the REAL typed `Tuple2<A, B>`; components arrive as the `Display` texts of the values
+macro_rules! rt2_typed { ($A:ty, $B:ty, $a:expr, $b:expr) => {{
+    let (x, y) = ($a.parse::<$A>().ok()?, $b.parse::<$B>().ok()?);
+    guarded(|| match Tuple2(x.clone(), y.clone()).to_string().parse::<Tuple2<$A, $B>>() { Ok(Tuple2(p, q)) => format!("ok {}", enc_list(&[p.to_string(), q.to_string()])), Err(_) => "err Parse".into() })
+}} }
+macro_rules! rt3_typed { ($A:ty, $B:ty, $C:ty, $a:expr, $b:expr, $c:expr) => {{
+    let (x, y, z) = ($a.parse::<$A>().ok()?, $b.parse::<$B>().ok()?, $c.parse::<$C>().ok()?);
+    guarded(|| match Tuple3(x.clone(), y.clone(), z.clone()).to_string().parse::<Tuple3<$A, $B, $C>>() { Ok(Tuple3(p, q, r)) => format!("ok {}", enc_list(&[p.to_string(), q.to_string(), r.to_string()])), Err(_) => "err Parse".into() })
+}} }
+macro_rules! rtl_typed { ($A:ty, $items:expr) => {{
+    let v: Vec<$A> = $items.iter().map(|t| t.parse::<$A>().ok()).collect::<Option<Vec<_>>>()?;
+    guarded(|| match List(v.clone()).to_string().parse::<List<$A>>() { Ok(List(w)) => format!("ok {}", enc_list(&w.iter().map(|x| x.to_string()).collect::<Vec<_>>())), Err(_) => "err Parse".into() })
+}} }
+
+fn t2_typed(combo: usize, a: &str, b: &str) -> Option<String> {
+    Some(match combo {
+        0 => rt2_typed!(i64, f64, a, b), 1 => rt2_typed!(u8, i8, a, b), 2 => rt2_typed!(f32, bool, a, b), 3 => rt2_typed!(u64, isize, a, b), 4 => rt2_typed!(String, i16, a, b),
+        5 => rt2_typed!(char, u16, a, b), 6 => rt2_typed!(usize, u32, a, b), 7 => rt2_typed!(f64, String, a, b), 8 => rt2_typed!(String, char, a, b), _ => return None,
+    })
+}
+fn t3_typed(combo: usize, a: &str, b: &str, c: &str) -> Option<String> {
+    Some(match combo {
+        0 => rt3_typed!(i64, bool, f64, a, b, c), 1 => rt3_typed!(u8, i8, f32, a, b, c), 2 => rt3_typed!(String, i32, f64, a, b, c), 3 => rt3_typed!(u64, usize, isize, a, b, c),
+        4 => rt3_typed!(char, String, u16, a, b, c), 5 => rt3_typed!(f64, f64, String, a, b, c), 6 => rt3_typed!(i16, u32, String, a, b, c), _ => return None,
+    })
+}
+fn l_typed(ty: usize, items: &[String]) -> Option<String> {
+    Some(match ty {
+        0 => rtl_typed!(i64, items), 1 => rtl_typed!(u8, items), 2 => rtl_typed!(i8, items), 3 => rtl_typed!(f64, items), 4 => rtl_typed!(f32, items), 5 => rtl_typed!(bool, items), 6 => rtl_typed!(String, items),
+        7 => rtl_typed!(char, items), 8 => rtl_typed!(usize, items), 9 => rtl_typed!(u64, items), 10 => rtl_typed!(i16, items), 11 => rtl_typed!(u16, items), 12 => rtl_typed!(isize, items), _ => return None,
     })
 }
 
@@ -220,11 +305,47 @@ fn gen(tier: &str, seed: u64, out: &mut dyn FnMut(String)) {
         for ty in DISP_TYPES {
             for prec in ["none", "0", "2"] { for alt in [0, 1] {
                 let p = if prec == "none" { None } else { Some(prec.parse::<usize>().unwrap()) };
-                let (texts, _) = disp_subject(ty, s, p, alt == 1).unwrap();
+                let (texts, _, _) = disp_subject(ty, s, p, alt == 1, 0).unwrap();
                 out(format!("disp {} {} {} {} {}", alt, show_list(s), enc_list(&texts), ty, prec));
             } }
         }
     }
+    // (ii-b') robustness streams for the text form.  Every `disp` case is rendered through BOTH receivers (plain `Array<T>` and
+    // the `Result<Array<T>, ArrayError>` wrapper `PrintableResult`) under the same one of `{}` `{:#}` `{:.N}` `{:#.N}`.
+    //   sizes: axis lengths 7..17 in every position, more than 256 / 1024 / 4096 elements, rows of 1001 / 1030 / 2000 elements,
+    //   more than 1000 rows, totals above 1000 from short rows; zero-length axes; every element type incl. value classes
+    let disp_case = |ty: &str, s: &[usize], prec: &str, alt: usize, out: &mut dyn FnMut(String)| {
+        let p = if prec == "none" { None } else { Some(prec.parse::<usize>().unwrap()) };
+        let (texts, _, _) = disp_subject(ty, s, p, alt == 1, 0).unwrap();
+        out(format!("disp {} {} {} {} {}", alt, show_list(s), enc_list(&texts), ty, prec));
+    };
+    for (i, s) in disp_big_shapes().iter().enumerate() {
+        let n: usize = s.iter().product();
+        for (j, ty) in DISP_TYPES.iter().enumerate() {
+            // i32 and f64: all six combinations on every shape; the other element types: two combinations each, rotating, all six on the small ones
+            for (c, (prec, alt)) in [("none", 0), ("2", 1), ("none", 1), ("2", 0), ("0", 0), ("0", 1)].iter().enumerate() {
+                // quick tier, above 900 elements (the real text form of many-row arrays and the model's parse-back are slow): i32 under the four
+                // combinations {} {:#.2} {:#} {:.2}, one further element type (rotating with the shape) under {} and {:#.2}; up to 900 elements i32 and
+                // f64 under all six, the other element types under two (rotating); up to 64 elements and in the thorough tier everything
+                let pick = if thorough || n <= 64 { true } else if n > 900 { (j == 0 && c < 4) || (j == 1 + i % 15 && c < 2) } else { j < 2 || c % 3 == (i + j) % 3 };
+                if pick { disp_case(ty, s, prec, *alt, out); }
+            }
+        }
+        if n <= 900 || thorough { disp_case("f64", s, "5", 1, out); disp_case("f64x", s, "17", 0, out); }
+    }
+    for s in zero_shapes().iter().chain([vec![1, 0, 1], vec![3, 0], vec![0, 1001]].iter()) {
+        for ty in DISP_TYPES { for prec in ["none", "0", "2"] { for alt in [0, 1] { disp_case(ty, s, prec, alt, out); } } }
+    }
+    for _ in 0..(if thorough { 300 } else { 40 }) {
+        // seeded: rank 1..4, one long axis (up to 1100) in a random position, the others short
+        let r = 1 + rng.below(4);
+        let long = rng.below(r);
+        let s: Vec<usize> = (0..r).map(|k| if k == long { 5 + rng.below(if r == 1 { 1100 } else if r == 2 { 400 } else { 40 }) } else { 1 + rng.below(3) }).collect();
+        let ty = *rng.pick(&DISP_TYPES);
+        disp_case(ty, &s, *rng.pick(&["none", "0", "2", "3"]), rng.below(2), out);
+    }
+    // the Err(..) side of the wrapper, every format combination
+    for e in 0..4 { for prec in ["none", "0", "2"] { for alt in [0, 1] { out(format!("disperr {e} {alt} {prec}")); } } }
     // (ii-c) text forms of Tuple2 / Tuple3 / List: exhaustive over a small alphabet
     let alpha = ['1', ',', ' ', '(', ')', '[', ']'];
     let ws = words(&alpha, if thorough { 5 } else { 4 });
@@ -233,22 +354,47 @@ fn gen(tier: &str, seed: u64, out: &mut dyn FnMut(String)) {
     for a in &comps { for b in &comps {
         out(format!("t2show {} {}", enc(a), enc(b))); out(format!("t2rt {} {}", enc(a), enc(b)));
     } }
-    let plain = ["1", "-2", "a b", "x", "", "3.5", "t,u", "(p)", "q]"];
+    let plain = ["1", "-2", "a b", "x", "", "3.5", "t,u", "(p)", "q]", " ", "new york city", " lead", "trail ", "a  b"];
     for a in plain { for b in plain { for c in plain {
         out(format!("t3show {} {} {}", enc(a), enc(b), enc(c))); out(format!("t3rt {} {} {}", enc(a), enc(b), enc(c)));
     } } }
     let mut lists: Vec<Vec<String>> = vec![vec![]];
-    for n in 1..=3 { for idx in boxes(&vec![plain.len(); n]) { if n < 3 || idx.iter().all(|&i| i < 5) || thorough { lists.push(idx.iter().map(|&i| plain[i].to_string()).collect()); } } }
+    for n in 1..=3 { for idx in boxes(&vec![plain.len(); n]) { if n < 3 || idx.iter().all(|&i| i < 5 || (i >= 9 && !thorough)) || thorough { lists.push(idx.iter().map(|&i| plain[i].to_string()).collect()); } } }
+    // long lists (above 256 / 1024 items) and long components
+    for n in [17usize, 300, 1030] { lists.push((0..n).map(|k| format!("{}{k}", ["i", "a b", "x ", "q"][k % 4])).collect()); }
+    lists.push(vec!["w ".repeat(150), "a".repeat(300)]);
     for l in &lists { out(format!("lshow {}", enc_list(l))); out(format!("lrt {}", enc_list(l))); }
     // typed parses: Tuple2<i32,f64>, Tuple3<i32,bool,f64>, List<i32> on the same alphabet (parse failures of components)
     for w in words(&['1', '-', '.', ',', ' ', '(', ')'], if thorough { 5 } else { 4 }) { out(format!("t2parse_t {}", enc(&w))); out(format!("lparse_t {}", enc(&w))); }
+    // typed round trips value -> text -> value on the real Tuple2 / Tuple3 / List of every primitive component type, over the value classes
+    for (ci, (ta, tb)) in T2_COMBOS.iter().enumerate() { for a in vals(ta) { for b in vals(tb) { out(format!("t2rt_t {ci} {} {}", enc(&a), enc(&b))); } } }
+    for (ci, (ta, tb, tc)) in T3_COMBOS.iter().enumerate() { for a in vals(ta) { for b in vals(tb) { for c in vals(tc) { out(format!("t3rt_t {ci} {} {} {}", enc(&a), enc(&b), enc(&c))); } } } }
+    for (ti, ty) in L_TYPES.iter().enumerate() {
+        let v = vals(ty);
+        out(format!("lrt_t {ti} -"));
+        for a in &v { out(format!("lrt_t {ti} {}", enc_list(&[a.clone()]))); for b in &v { out(format!("lrt_t {ti} {}", enc_list(&[a.clone(), b.clone()]))); } }
+        for n in [3usize, 17, 300, 1030] { out(format!("lrt_t {ti} {}", enc_list(&(0..n).map(|k| v[(k + k / v.len()) % v.len()].clone()).collect::<Vec<_>>()))); }
+    }
+    {   // long String components (a few hundred characters, blanks inside)
+        let (la, lb) = ("new york ".repeat(40), "a".repeat(300));
+        for (a, b) in [(la.as_str(), lb.as_str()), (lb.as_str(), ""), ("", la.as_str())] {
+            out(format!("t2rt {} {}", enc(a), enc(b))); out(format!("t2show {} {}", enc(a), enc(b)));
+            out(format!("t3rt {} {} {}", enc(a), enc(b), enc(a))); out(format!("t3show {} {} {}", enc(b), enc(a), enc(b)));
+            out(format!("t3rt_t 2 {} {} {}", enc(a), enc("-7"), enc("0.1"))); out(format!("t2rt_t 4 {} {}", enc(a), enc("-32768")));
+        }
+    }
     // (iii) run-time front ends on Debug texts of nested structures: every shape rank<=4 len<=3, then random beyond
     let mut rshapes = shapes(1, 4, 1, if thorough { 3 } else { 2 });
     let n_rand = if thorough { 600 } else { 80 };
     for _ in 0..n_rand { rshapes.push(rng.shape(1, 5, 4)); }
+    // sizes beyond the small scope (axis lengths 7..17 in every position, more than 256 / 1024 elements) and zero-length axes
+    rshapes.extend(big_shapes().into_iter().filter(|s| s.iter().product::<usize>() <= if thorough { 1300 } else { 320 }));
+    rshapes.push(vec![1030]);
+    if thorough { rshapes.extend(vec![vec![1, 1001], vec![1001, 1]]); }
+    rshapes.extend(zero_shapes());
     for s in &rshapes {
         let n: usize = s.iter().product();
-        if n > 600 { continue; }
+        if n > 1300 { continue; }
         for kind in ["generic", "tuple2", "tuple3", "list", "char", "string"] {
             let leaves: Vec<String> = (0..n).map(|k| rt_leaf(kind, k, &mut rng)).collect();
             let wraps = match kind { "tuple2" | "tuple3" => 2, _ => 1 };
@@ -331,13 +477,19 @@ fn exec(op: &str, args: &[&str], expected: &str) -> Option<Verdict> {
             let alt = args[0] == "1";
             let shape = parse_usize_list(args[1]);
             let prec = if args[4] == "none" { None } else { Some(args[4].parse::<usize>().ok()?) };
-            let (texts, shown) = disp_subject(args[3], &shape, prec, alt)?;
+            let (texts, shown, wrapped) = disp_subject(args[3], &shape, prec, alt, 2)?;
             if enc_list(&texts) != args[2] { return None; }
             let mut it = expected.splitn(3, ' ');
             let (_ok, mtext, back) = (it.next()?, it.next()?, it.next()?);
             let observed = if shown == "panic" { "panic".to_string() } else { format!("ok {}", enc(&shown)) };
             if observed != format!("ok {}", mtext) {
                 return Some(Verdict::Mismatch { observed: format!("{} = `{}`", observed, shown), detail: format!("model renders `{}`", dec(mtext).unwrap_or_default()) });
+            }
+            // the other receiver: the text form of `Ok(array)` (PrintableResult) under the same format specification
+            let want_wrapped = format!("Ok({})", dec(mtext).unwrap_or_default());
+            if wrapped != want_wrapped {
+                return Some(Verdict::Mismatch { observed: format!("RECEIVER-DIVERGENCE Result wrapper renders `{}`, plain array `{}`", truncate(&wrapped, 600), truncate(&shown, 600)),
+                    detail: format!("format `{{:{}{}}}`: model renders `{}`", if alt { "#" } else { "" }, prec.map_or(String::new(), |p| format!(".{p}")), truncate(&want_wrapped, 600)) });
             }
             // parse back (plain form, element texts free of separators): independent bracket parser and the literal front end of the model
             let plain_elems = texts.iter().all(|t| !t.is_empty() && !t.contains(|c| "[],\"#".contains(c)) && !t.starts_with(' '));
@@ -352,7 +504,7 @@ fn exec(op: &str, args: &[&str], expected: &str) -> Option<Verdict> {
             }
             if alt {
                 // pretty = plain modulo line breaks and indentation
-                let (_, plain) = disp_subject(args[3], &shape, prec, false)?;
+                let (_, plain, _) = disp_subject(args[3], &shape, prec, false, 1)?;
                 let strip = |s: &str| s.chars().filter(|c| *c != ' ' && *c != '\n').collect::<String>();
                 if strip(&plain) != strip(&shown) { return Some(Verdict::Mismatch { observed, detail: format!("pretty `{}` vs plain `{}` differ beyond whitespace", shown, plain) }); }
             }
@@ -383,6 +535,38 @@ fn exec(op: &str, args: &[&str], expected: &str) -> Option<Verdict> {
             let observed = guarded(|| match List(l.clone()).to_string().parse::<List<String>>() { Ok(List(v)) => format!("ok {}", enc_list(&v)), Err(_) => "err Parse".into() });
             let clean = |t: &str| !t.is_empty() && !t.contains(|c| ",()[]".contains(c));
             if l.iter().all(|t| clean(t)) && observed != format!("ok {}", enc_list(&l)) { return Some(Verdict::Mismatch { observed, detail: "separator-free list does not survive the round trip".into() }); }
+            Some(compare_default(observed, expected))
+        }
+        "disperr" => {
+            let e = match args[0] { "0" => ArrayError::BroadcastShapeMismatch, "1" => ArrayError::AxisOutOfBounds, "2" => ArrayError::ShapeMustMatchValuesLength,
+                _ => ArrayError::ParameterError { param: "`x`", message: "must be something" } };
+            let alt = args[1] == "1";
+            let prec = if args[2] == "none" { None } else { Some(args[2].parse::<usize>().ok()?) };
+            let want = format!("Err({})", e);
+            let got_i = guarded(|| fmt_spec(&PrintableResult::<i32> { result: Err(e.clone()) }, prec, alt));
+            let got_f = guarded(|| fmt_spec(&PrintableResult::<f64> { result: Err(e.clone()) }, prec, alt));
+            if got_i == want && got_f == want { Some(compare_default("ok same".into(), expected)) }
+            else { Some(Verdict::Mismatch { observed: format!("ok {}", enc(&got_i)), detail: format!("the wrapper of Err(e) must print `{want}`; i32: `{got_i}`, f64: `{got_f}`") }) }
+        }
+        "t2rt_t" => {
+            let (a, b) = (dec(args[1])?, dec(args[2])?);
+            let observed = t2_typed(args[0].parse().ok()?, &a, &b)?;
+            let clean = |t: &str| !t.contains(|c| ",()".contains(c));
+            if clean(&a) && clean(&b) && observed != format!("ok {}", enc_list(&[a, b])) { return Some(Verdict::Mismatch { observed, detail: "separator-free typed pair does not survive the round trip".into() }); }
+            Some(compare_default(observed, expected))
+        }
+        "t3rt_t" => {
+            let (a, b, c) = (dec(args[1])?, dec(args[2])?, dec(args[3])?);
+            let observed = t3_typed(args[0].parse().ok()?, &a, &b, &c)?;
+            let clean = |t: &str| !t.contains(|c| ",()".contains(c));
+            if clean(&a) && clean(&b) && clean(&c) && observed != format!("ok {}", enc_list(&[a, b, c])) { return Some(Verdict::Mismatch { observed, detail: "separator-free typed triple does not survive the round trip".into() }); }
+            Some(compare_default(observed, expected))
+        }
+        "lrt_t" => {
+            let l = dec_list(args[1])?;
+            let observed = l_typed(args[0].parse().ok()?, &l)?;
+            let clean = |t: &str| !t.is_empty() && !t.contains(|c| ",()[]".contains(c));
+            if l.iter().all(|t| clean(t)) && observed != format!("ok {}", enc_list(&l)) { return Some(Verdict::Mismatch { observed, detail: "separator-free typed list does not survive the round trip".into() }); }
             Some(compare_default(observed, expected))
         }
         // typed component parsers: the model cuts the pieces, the harness applies the real `i32`/`f64` parsers to them
